@@ -511,3 +511,105 @@ def rule_c19_r3(model: Model) -> RuleResult:
         else:
             r.fail(fq, lib, f.loc(), f"{fq} does not use {lib}")
     return r
+
+
+def rule_spec_substitution_keeps_settings(model: Model, rule_id: str = 'C18-R7') -> RuleResult:
+    """C18 / C17: specialising a generic class changes a field's type and nothing else (its converter, names, defaults stay)."""
+    r = RuleResult(rule_id, "type-variable substitution of a field declaration replaces its type only (the field's own converter and every "
+                            "other setting are kept)", floor=2)
+    f = model.func('pane.field.FieldSpec.replace_typevars')
+    cfg = cfg_of(model, f)
+    nz = Normalizer(model, f, cfg, param_map=_pm(f))
+    r.analysed.add(f.qualname)
+    for n in cfg.live_nodes():
+        if n.kind != 'return' or n.ast is None or n.ast.value is None:
+            continue
+        r.instances += 1
+        form = nz.expr(n.ast.value, n)
+        r.sample({'returns': form[:120]})
+        alts = [form]
+        if form.startswith('PHI(') and form.endswith(')'):
+            alts = _split_top(form[4:-1], '|')
+        bad = []
+        for a in alts:
+            m_ = re.match(r'^(dataclasses\.replace|copy\.copy|copy\.replace)\(self(?:, (.*))?\)$', a)
+            if a == 'self':
+                continue
+            if not m_:
+                bad.append(a)
+                continue
+            kws = [k.split('=', 1)[0].strip() for k in _split_top(m_.group(2) or '', ',') if k.strip()]
+            if any(k != 'ty' for k in kws):
+                bad.append(a)
+        if bad:
+            r.fail(f.qualname, f"returns {bad[0][:120]}", f.loc(n.ast),
+                   "the specialised field loses or changes a setting other than its type: e.g. field(converter=...) on a TypeVar-typed field is "
+                   "dropped in Box[int], so class-level or built-in converters are used instead of the field's own")
+        else:
+            r.ok()
+    return r
+
+
+def _split_top(s: str, sep: str) -> t.List[str]:
+    out, cur, depth = [], '', 0
+    quote = None
+    for ch in s:
+        if quote:
+            cur += ch
+            if ch == quote:
+                quote = None
+            continue
+        if ch in '\'"':
+            quote = ch
+        if ch in '([{':
+            depth += 1
+        elif ch in ')]}':
+            depth -= 1
+        if ch == sep and depth == 0:
+            out.append(cur.strip())
+            cur = ''
+        else:
+            cur += ch
+    if cur.strip():
+        out.append(cur.strip())
+    return out
+
+
+def rule_io_passes_documents_through(model: Model, rule_id: str = 'C19-R5') -> RuleResult:
+    """C19: what the parser produced is what gets converted, and what the converter produced is what gets dumped (no default, no filter)."""
+    r = RuleResult(rule_id, 'readers convert exactly the parsed document and writers dump exactly the serialised value (no `or` default, '
+                            'no filtering in between)', floor=5)
+    m = model.module('pane.io')
+    for f in model.all_functions():
+        if f.module is not m or not isinstance(f.node, ast.FunctionDef):
+            continue
+        cfg = cfg_of(model, f)
+        nz = Normalizer(model, f, cfg, param_map=_pm(f))
+        for n in cfg.live_nodes():
+            for root in node_exprs(n):
+                for c in walk_no_nested(root):
+                    if not isinstance(c, ast.Call) or not c.args:
+                        continue
+                    q = model.resolve(c.func, f.module, f) or nz.expr(c.func, n)
+                    if q == 'pane.convert.from_data':
+                        r.instances += 1
+                        r.analysed.add(f.qualname)
+                        form = nz.expr(c.args[0], n)
+                        r.sample({f.name: form[:100]})
+                        if re.match(r'^(list\()?(json|yaml)\.(load|loads|load_all)\(', form):
+                            r.ok()
+                        else:
+                            r.fail(f.qualname, f"from_data({form[:100]})", f.loc(c),
+                                   "the value converted is not the parsed document itself: a falsy document (0, False, '', [], null) or part of it "
+                                   "is replaced or dropped, so a written value does not read back")
+                    elif q in ('json.dump', 'json.dumps', 'yaml.dump', 'yaml.dump_all', 'yaml.safe_dump'):
+                        r.instances += 1
+                        r.analysed.add(f.qualname)
+                        form = nz.expr(c.args[0], n)
+                        r.sample({f.name: form[:100]})
+                        if re.match(r'^pane\.convert\.into_data\(\$\w+', form):
+                            r.ok()
+                        else:
+                            r.fail(f.qualname, f"{q}({form[:100]})", f.loc(c),
+                                   "the value dumped is not the serialised object itself")
+    return r
